@@ -46,7 +46,8 @@ package pubsub
 // fulfillPromise: the message arrived (or was rejected for a reason other than a bad signature):
 // nobody can be blamed for it any more.
 //@ func (*gossipTracer).fulfillPromise
-//@   property C17
+//@   property C17 C12
+//@   safe
 //@   dynpure ID
 //@   requires msg: msg != nil && gt.idGen != nil
 //@   noframe
@@ -59,7 +60,8 @@ package pubsub
 // RejectMessage: a message rejected for a missing or invalid signature does NOT fulfil promises
 // (anyone could have forged it); every other rejection does.
 //@ func (*gossipTracer).RejectMessage
-//@   property C17
+//@   property C17 C12
+//@   safe
 //@   requires msg: msg != nil && gt.idGen != nil
 //@   noframe
 //@   ensures signature-rejections-keep-promises: reason == RejectMissingSignature || reason == RejectInvalidSignature ==>
@@ -69,7 +71,8 @@ package pubsub
 
 // ThrottlePeer: a peer we refuse payload from cannot keep its promises: they are all voided.
 //@ func (*gossipTracer).ThrottlePeer
-//@   property C17
+//@   property C17 C12
+//@   safe
 //@   modifies monitor(gossipTracer.Mutex)
 //@   loop 1 invariant held: held(gt.Mutex) && gtRep(gt) && (forall m string :: $visited[m] ==> !has(gt.promises, m, p)) &&
 //@        (forall m string, q string :: q != p ==> has(gt.promises, m, q) == lin(has(gt.promises, m, q)) && gt.promises[m][q] == lin(gt.promises[m][q])) &&
